@@ -242,6 +242,20 @@ func (sws *sessionWantSender) onChange(changes []change) {
 
 	// Apply each change
 	availability := make(map[peer.ID]bool, len(changes))
+	var newlyAvailable, newlyUnavailable []peer.ID
+	// setAvailability records the latest availability of a peer. If the peer
+	// changed state more than once since the last invocation (for example it
+	// disconnected and reconnected), the earlier change is applied right away
+	// instead of being overwritten: wants that were sent over a connection
+	// that is gone have to be sent again.
+	setAvailability := func(p peer.ID, isAvailable bool) {
+		if prev, ok := availability[p]; ok && prev != isAvailable {
+			avail, unavail := sws.processAvailability(map[peer.ID]bool{p: prev})
+			newlyAvailable = append(newlyAvailable, avail...)
+			newlyUnavailable = append(newlyUnavailable, unavail...)
+		}
+		availability[p] = isAvailable
+	}
 	cancels := make([]cid.Cid, 0)
 	var updates []update
 	for _, chng := range changes {
@@ -263,7 +277,7 @@ func (sws *sessionWantSender) onChange(changes []change) {
 			if len(chng.update.ks) > 0 || len(chng.update.haves) > 0 {
 				p := chng.update.from
 				log.Debugf("change: availability (update includes blocks/haves): %s -> true", p)
-				availability[p] = true
+				setAvailability(p, true)
 
 				// Register with the PeerManager
 				sws.pm.RegisterSession(p, sws)
@@ -279,12 +293,14 @@ func (sws *sessionWantSender) onChange(changes []change) {
 		}
 		if t := chng.availability.target; t != "" {
 			log.Debugf("change: availability: %s -> %t", t, chng.availability.available)
-			availability[t] = chng.availability.available
+			setAvailability(t, chng.availability.available)
 		}
 	}
 
 	// Update peer availability
-	newlyAvailable, newlyUnavailable := sws.processAvailability(availability)
+	avail, unavail := sws.processAvailability(availability)
+	newlyAvailable = append(newlyAvailable, avail...)
+	newlyUnavailable = append(newlyUnavailable, unavail...)
 
 	// Update wants
 	dontHaves := sws.processUpdates(updates)
